@@ -274,7 +274,7 @@ func (d *Discharger) discharge(i int, o *Obligation) {
 					qfs = []string{f3, f2}
 					defer os.Remove(f3)
 				}
-				r0 := raceFiles(qfs, 25, d.seed, solvers[:1])
+				r0 := raceFiles(qfs, 35, d.seed, solvers[:1])
 				if r0.status == "sat" {
 					r0.status = "unknown" // the ground part alone is weaker: a model of it refutes nothing
 				}
